@@ -73,6 +73,14 @@ func c40Requests(thorough bool) []genRequest {
 	// declared in the request and unknown to the plugin binary: protogen
 	// re-parses such options into dynamic messages, whose field order is a Go
 	// map's; the option is used on a message, a field and the file
+	// several camelCase conflict groups that touch one oneof (the opaque name
+	// resolution appends a suffix to the oneof per conflicting member: the order in
+	// which groups are resolved must not reach the output)
+	for _, lv := range apiLevels {
+		cf := conflictGroupsFile()
+		out = append(out, genRequest{fmt.Sprintf("synthetic %s (three camelCase conflict groups on one oneof) level=%s", cf.GetName(), lv),
+			gen.Request(gen.WithGlobalDeps(cf), []string{cf.GetName()}, "default_api_level="+lv)})
+	}
 	rule, user := customOptionFiles()
 	for _, lv := range apiLevels {
 		out = append(out, genRequest{fmt.Sprintf("synthetic %s using a message-typed custom option of %s level=%s", user.GetName(), rule.GetName(), lv),
@@ -81,6 +89,30 @@ func c40Requests(thorough bool) []genRequest {
 			gen.Request(gen.WithGlobalDeps(rule, user), []string{rule.GetName(), user.GetName()}, "default_api_level="+lv)})
 	}
 	return out
+}
+
+func conflictGroupsFile() *descriptorpb.FileDescriptorProto {
+	opt := descriptorpb.FieldDescriptorProto_LABEL_OPTIONAL.Enum()
+	i32 := descriptorpb.FieldDescriptorProto_TYPE_INT32.Enum()
+	m := &descriptorpb.DescriptorProto{Name: proto.String("M"), OneofDecl: []*descriptorpb.OneofDescriptorProto{{Name: proto.String("u")}}}
+	num := int32(0)
+	add := func(name string, inOneof bool) {
+		num++
+		f := &descriptorpb.FieldDescriptorProto{Name: proto.String(name), Number: proto.Int32(num), Type: i32, Label: opt, JsonName: proto.String(fmt.Sprintf("j%d", num))}
+		if inOneof {
+			f.OneofIndex = proto.Int32(0)
+		}
+		m.Field = append(m.Field, f)
+	}
+	for _, g := range []string{"foo", "bar", "baz"} {
+		add("_"+g, true)
+	}
+	for _, g := range []string{"foo", "bar", "baz"} {
+		add("X_"+g, false)
+	}
+	fdp := &descriptorpb.FileDescriptorProto{Name: proto.String("verif/c40/conflicts.proto"), Package: proto.String("verif.c40.conflicts"), Syntax: proto.String("proto3"), MessageType: []*descriptorpb.DescriptorProto{m}}
+	setGoPackage(fdp, "conflictgroups")
+	return fdp
 }
 
 func customOptionFiles() (rule, user *descriptorpb.FileDescriptorProto) {
@@ -198,7 +230,7 @@ func firstDiffFile(a, b *pluginpb.CodeGeneratorResponse) string {
 
 func runC40(c *core.Ctx) {
 	repeats := core.Pick(c, 6, 12)
-	c.Rule = fmt.Sprintf("request universe: every linked file on its own (with its import closure) under 6 parameter strings (quick: all 6 on every sixth file, the default on the rest), plus synthetic files (9 extendee targets with interleaved extensions, 9 oneofs, 9 imports, 9 top-level and nested enums; every field shape of proto2/proto3/editions 2023/2024 in one message; colliding names; a file using a message-typed custom option - 10 fields and an 8-entry map, on a file, a message and a field - that is declared in the request and not linked into the plugin) at API levels OPEN/HYBRID/OPAQUE. Every request is run %d times in this process and once in a second process: all responses byte-identical (deterministic marshal of CodeGeneratorResponse). Order independence: for 3 interdependent synthetic files, every permutation of file_to_generate and every permutation of the three as separate single-file requests yields the same content per generated file name; the same for an edition-2024 pair where one file uses custom options of the other through 'import option' (the declaring file is not a regular dependency), in both request orders. Go map iteration order is not a controlled seam: an unordered iteration over n>=8 entries survives r in-process repeats with probability <= 8^-r (documented in DESIGN.md)", repeats)
+	c.Rule = fmt.Sprintf("request universe: every linked file on its own (with its import closure) under 6 parameter strings (quick: all 6 on every sixth file, the default on the rest), plus synthetic files (9 extendee targets with interleaved extensions, 9 oneofs, 9 imports, 9 top-level and nested enums; every field shape of proto2/proto3/editions 2023/2024 in one message; colliding names; three camelCase conflict groups touching one oneof; a file using a message-typed custom option - 10 fields and an 8-entry map, on a file, a message and a field - that is declared in the request and not linked into the plugin) at API levels OPEN/HYBRID/OPAQUE. Every request is run %d times in this process and once in a second process: all responses byte-identical (deterministic marshal of CodeGeneratorResponse). Order independence: for 3 interdependent synthetic files, every permutation of file_to_generate and every permutation of the three as separate single-file requests yields the same content per generated file name; the same for an edition-2024 pair where one file uses custom options of the other through 'import option' (the declaring file is not a regular dependency), in both request orders. Go map iteration order is not a controlled seam: an unordered iteration over n>=8 entries survives r in-process repeats with probability <= 8^-r (documented in DESIGN.md)", repeats)
 	c.Exhaustive = true
 	var child *core.Child
 	if !core.IsChild() {
